@@ -430,8 +430,10 @@ def evaluate_pump_case(case) -> Tuple[List[Dict[str, Any]], Any, bool]:
             items = env.take_to_proxy()
             mine = [i for i in items if i[0] == "callback" and i[1] == fid]
             n_cb += len(mine)
-            if n_cb > 1:
+            if n_cb > 1 and mine:
                 bad("handback-duplicate", f"{label}: {n_cb} callbacks for the flow so far (addon logs {w.a1.log} {w.a2.log})")
+            elif n_cb > 1:
+                pass
             elif expect_delta is not None and len(mine) != expect_delta:
                 if expect_delta == 1 and label == "pump":
                     bad("handback-immediate", f"no actor owns the flow after the pump, {len(mine)} callbacks queued "
